@@ -10,7 +10,12 @@ def run_rules(prop, tier='quick', overlay=None, root=None, seed=0, quiet=True):
     """Build the index, run the property's rules; returns the Context (no evidence written)."""
     mod = props.load(prop)
     idx = Index(root=root, overlay=overlay)
+    from . import normalize
+    idx.normalization = normalize.normalize(idx)
     ctx = Context(prop, idx, tier=tier, seed=seed, quiet=quiet)
+    if idx.normalization.get('inlined') or idx.unreviewed:
+        ctx.extra['unreviewed_helpers_inlined'] = idx.normalization.get('inlined', {})
+        ctx.extra['unreviewed_helpers_left'] = list(idx.unreviewed)
     try:
         mod.check(ctx)
     except AnalysisError as e:
